@@ -128,6 +128,8 @@ def run(ctx, spec, out):
         base = rng.choice([gen.gen_data_query(rng, schema, ds, {"depth": [0, 1, 2], "sort": 0.3, "limit": 0.3}), gen.gen_stats_query(rng, schema, ds, {})])
         b = bytearray(base.replace("GET log", "GET hosts").encode("utf-8"))
         for _ in range(rng.choice([1, 2, 4])):
+            if len(b) == 0:
+                break
             r = rng.random()
             if r < 0.4 and len(b) > 10:
                 i = rng.randrange(len(b))
